@@ -37,11 +37,18 @@ pub enum NOp {
     /// `task::yield_now().await` — the only scheduling point a thread can put between `enable` and
     /// the drop of its future (neither has one of its own)
     Yield,
+    /// `time::timeout(1s, notify.notified()).await` (the thread keeps no future): `Unit` / `Elapsed`
+    TimeoutAwait,
+    /// `time::trigger_timeouts(|_| true)`: every live timeout expires, later ones are born expired
+    TriggerAll,
+    /// `time::clear_triggers()`
+    ClearTriggers,
 }
 
 #[derive(Clone, Debug, PartialEq, Eq, Hash, PartialOrd, Ord)]
 pub enum NRes {
     Unit,
+    Elapsed,
     Bool(bool),
     Ready,
     Pending,
@@ -83,6 +90,10 @@ pub struct NM {
     slot: Vec<Slot>,
     /// wake-ups a notifier still has to deliver: (notifier, waiter)
     to_wake: Vec<(u8, u8)>,
+    /// `time`: a trigger is registered / the thread has a live timeout / which has expired
+    triggered: bool,
+    live: Vec<bool>,
+    expired: Vec<bool>,
 }
 
 pub struct NotifyFam;
@@ -166,6 +177,8 @@ impl Family for NotifyFam {
     const ASYNC: bool = true;
 
     fn make_objs(_cfg: &(), _n: usize) -> NObjs {
+        // harness hygiene: the wrapper's trigger table is a std thread-local that survives executions
+        shuttle_tokio_impl_inner::time::clear_triggers();
         NObjs { notify: Notify::new() }
     }
     fn new_locals(_cfg: &(), _t: usize) -> NLocals {
@@ -231,6 +244,21 @@ impl Family for NotifyFam {
                     shuttle_tokio_impl_inner::task::yield_now().await;
                     NRes::Unit
                 }
+                NOp::TimeoutAwait => {
+                    assert!(l.fut.is_none(), "ill-formed program: TimeoutAwait with a held future");
+                    match shuttle_tokio_impl_inner::time::timeout(std::time::Duration::from_secs(1), notify.notified()).await {
+                        Ok(()) => NRes::Unit,
+                        Err(_) => NRes::Elapsed,
+                    }
+                }
+                NOp::TriggerAll => {
+                    shuttle_tokio_impl_inner::time::trigger_timeouts(|_| true);
+                    NRes::Unit
+                }
+                NOp::ClearTriggers => {
+                    shuttle_tokio_impl_inner::time::clear_triggers();
+                    NRes::Unit
+                }
             }
         })
     }
@@ -245,16 +273,49 @@ impl Family for NotifyFam {
     fn m_abortable(op: &NOp, phase: u8) -> bool {
         match op {
             NOp::Await => phase <= 1,
+            NOp::TimeoutAwait => phase == 1,
             NOp::Yield => true,
             _ => false,
         }
     }
-    /// A cancelled task drops its `Notified` (programs with `Abort` use `notify_waiters` only, so
-    /// the dropped future never has a `notify_one` to pass on — that path has scheduling points of
-    /// its own and is exercised by `DropFut`).
+    /// A cancelled task drops its `Notified` (the one it awaits, or the one it holds while it sits
+    /// in `Yield`).  tokio (Notify, "Cancel safety"): the waiter loses its place; a `notify_one` it
+    /// had received but not yet consumed is not lost — the destructor passes it on (`notify_one`
+    /// semantics at that instant: another registered waiter, else the stored permit).  Storing the
+    /// permit is one atomic step (here); waking another waiter takes a scheduling step of the
+    /// cancelled task inside its destructor (`m_cancel_begin` / `m_cancel_step`).
     fn m_on_finish(m: &mut NM, t: usize) {
-        assert!(!matches!(m.slot[t], Slot::Notified(true, _)), "model: cancellation of a waiter notified by notify_one is not modelled");
+        let old = m.slot[t];
         m.slot[t] = Slot::Empty;
+        m.live[t] = false;
+        m.expired[t] = false;
+        if matches!(old, Slot::Notified(true, _)) && !wk(W_DROP_LOSES) {
+            assert!(!m.slot.iter().any(|s| *s == Slot::Waiting), "model: forwarding to a waiter goes through m_cancel_begin");
+            m.permit = true;
+        }
+    }
+    fn m_cancel_begin(m: &NM, t: usize, _op: &NOp, _phase: u8) -> Option<Vec<MStep<NM, ()>>> {
+        if matches!(m.slot[t], Slot::Notified(true, _)) && !wk(W_DROP_LOSES) && m.slot.iter().any(|s| *s == Slot::Waiting) {
+            let mut n = m.clone();
+            n.slot[t] = Slot::Empty;
+            n.live[t] = false;
+            n.expired[t] = false;
+            // flag of the chosen waiter set; its wake-up follows after a scheduling point
+            Some(n.forward(t as u8).into_iter().map(|x| MStep::Cont(x, 1)).collect())
+        } else {
+            None
+        }
+    }
+    fn m_cancel_step(m: &NM, t: usize, _op: &NOp, _cphase: u8, _strict: bool) -> Vec<MStep<NM, ()>> {
+        let mut n = m.clone();
+        if let Some(pos) = n.to_wake.iter().position(|x| x.0 == t as u8) {
+            let (_, w) = n.to_wake.remove(pos);
+            if let Slot::Notified(k, _) = n.slot[w as usize] {
+                n.slot[w as usize] = Slot::Notified(k, true);
+            }
+            return vec![MStep::Cont(n, 1)];
+        }
+        vec![MStep::Done(n, ())]
     }
     fn objects_of(_op: &NOp) -> Vec<u32> {
         vec![0xC20]
@@ -264,6 +325,9 @@ impl Family for NotifyFam {
             permit: false,
             slot: vec![Slot::Empty; n],
             to_wake: vec![],
+            triggered: false,
+            live: vec![false; n],
+            expired: vec![false; n],
         }
     }
 
@@ -348,6 +412,87 @@ impl Family for NotifyFam {
                     vec![MStep::Done(n, NRes::Unit)]
                 }
             },
+            // `Timeout::poll` looks at the expiry first, then polls the future; an expired timeout
+            // drops the `Notified` (passing on a notify_one it had received).  With the expiry and the
+            // notification both there the wrapper says Elapsed; tokio's own `timeout` polls the
+            // future first and would say Ok — the contract-only relation accepts either.
+            NOp::TimeoutAwait => match phase {
+                0 => {
+                    if m.triggered {
+                        // born expired: the future is never polled
+                        return vec![MStep::Done(m.clone(), NRes::Elapsed)];
+                    }
+                    let mut m0 = m.clone();
+                    m0.slot[t] = Slot::Init;
+                    m0.live[t] = true;
+                    m0.expired[t] = false;
+                    Self::look(&m0, t).into_iter().map(|(n, _ready, consumed)| if consumed { MStep::Cont(n, 2) } else { MStep::Cont(n, 1) }).collect()
+                }
+                1 => {
+                    let mut out = Vec::new();
+                    let done = |m: &NM| {
+                        let mut n = m.clone();
+                        n.slot[t] = Slot::Empty;
+                        n.live[t] = false;
+                        n.expired[t] = false;
+                        n
+                    };
+                    if m.expired[t] {
+                        let n = done(m);
+                        match m.slot[t] {
+                            Slot::Notified(true, _) if !wk(W_DROP_LOSES) => {
+                                for x in n.forward(tt) {
+                                    if x.to_wake.iter().any(|e| e.0 == tt) {
+                                        out.push(MStep::Cont(x, 3));
+                                    } else {
+                                        out.push(MStep::Done(x, NRes::Elapsed));
+                                    }
+                                }
+                            }
+                            _ => out.push(MStep::Done(n, NRes::Elapsed)),
+                        }
+                    }
+                    if let Slot::Notified(_, woken) = m.slot[t] {
+                        if (woken || !strict) && (!m.expired[t] || !strict) {
+                            out.push(MStep::Done(done(m), NRes::Unit));
+                        }
+                    }
+                    out
+                }
+                2 => {
+                    let mut n = m.clone();
+                    n.slot[t] = Slot::Empty;
+                    n.live[t] = false;
+                    n.expired[t] = false;
+                    vec![MStep::Done(n, NRes::Unit)]
+                }
+                _ => {
+                    let mut n = m.clone();
+                    if let Some(pos) = n.to_wake.iter().position(|x| x.0 == tt) {
+                        let (_, w) = n.to_wake.remove(pos);
+                        if let Slot::Notified(k, _) = n.slot[w as usize] {
+                            n.slot[w as usize] = Slot::Notified(k, true);
+                        }
+                        return vec![MStep::Cont(n, 3)];
+                    }
+                    vec![MStep::Done(n, NRes::Elapsed)]
+                }
+            },
+            NOp::TriggerAll => {
+                let mut n = m.clone();
+                n.triggered = true;
+                for i in 0..n.live.len() {
+                    if n.live[i] {
+                        n.expired[i] = true;
+                    }
+                }
+                vec![MStep::Done(n, NRes::Unit)]
+            }
+            NOp::ClearTriggers => {
+                let mut n = m.clone();
+                n.triggered = false;
+                vec![MStep::Done(n, NRes::Unit)]
+            }
             NOp::DropFut => {
                 if phase == 1 {
                     // deliver the wake-up of a notification that was passed on
@@ -459,7 +604,7 @@ impl XFamily for NotifyFam {
     /// every waiter must be reachable by `gen_range(0..k)`, k = number of waiting futures ≤ number
     /// of threads that ever wait
     fn rand_menu(p: &Program<NotifyFam>) -> Vec<u64> {
-        let waiters = p.threads.iter().filter(|t| t.iter().any(|o| matches!(o, GOp::Op(NOp::Enable | NOp::Poll | NOp::Await)))).count();
+        let waiters = p.threads.iter().filter(|t| t.iter().any(|o| matches!(o, GOp::Op(NOp::Enable | NOp::Poll | NOp::Await | NOp::TimeoutAwait)))).count();
         let notifies = p.threads.iter().flatten().any(|o| matches!(o, GOp::Op(NOp::NotifyOne)));
         if !notifies || waiters <= 1 {
             vec![0]
@@ -587,6 +732,118 @@ pub fn program_set(set: &str) -> Vec<Program<NotifyFam>> {
                 let main = vec![GOp::Spawn(1), GOp::Spawn(2), GOp::Spawn(3), GOp::Abort(victim), GOp::Join(1), GOp::Join(2), GOp::Join(3)];
                 let th = |v: &Vec<NOp>| v.iter().cloned().map(GOp::Op).collect::<Vec<_>>();
                 out.push(Program { cfg: (), threads: vec![main, th(&w), th(&vec![NOp::Await]), th(&nt)] });
+            }
+        }
+    }
+    // cancellation of a waiter that notify_one has chosen (the destructor passes the notification
+    // on, waking the other waiter in a scheduling step of its own), of the waiter it has not chosen,
+    // and of either while a notifier task is half-way through notify_one / notify_waiters
+    let th = |v: &[NOp]| v.iter().cloned().map(GOp::Op).collect::<Vec<_>>();
+    let shapes: Vec<Vec<NOp>> = vec![vec![NOp::Await], vec![NOp::New, NOp::Enable, NOp::Await], vec![NOp::New, NOp::Enable, NOp::Yield, NOp::Await]];
+    // (a) main notifies, then aborts: the wake-up has been sent, the victim may or may not have consumed it
+    for victim in [1usize, 2] {
+        for (wi, w) in shapes.iter().enumerate() {
+            if !thorough && wi == 2 {
+                continue;
+            }
+            for pre in [vec![NOp::NotifyOne], vec![NOp::NotifyOne, NOp::NotifyWaiters], vec![NOp::NotifyWaiters, NOp::NotifyOne]] {
+                for post in [vec![], vec![NOp::NotifyOne]] {
+                    if !thorough && pre.len() + post.len() > 2 {
+                        continue;
+                    }
+                    let mut main = vec![GOp::Spawn(1), GOp::Spawn(2)];
+                    main.extend(th(&pre));
+                    main.push(GOp::Abort(victim));
+                    main.extend(th(&post));
+                    main.extend([GOp::Join(1), GOp::Join(2)]);
+                    out.push(Program { cfg: (), threads: vec![main, th(w), th(&[NOp::Await])] });
+                }
+            }
+        }
+    }
+    // (b) a notifier task runs beside the abort: two waiters
+    for victim in [1usize, 2] {
+        for (wi, w) in shapes.iter().enumerate() {
+            for nt in [vec![NOp::NotifyOne], vec![NOp::NotifyOne, NOp::NotifyOne], vec![NOp::NotifyOne, NOp::NotifyWaiters], vec![NOp::NotifyWaiters, NOp::NotifyOne]] {
+                if !thorough && (wi > 0 || nt.len() > 1) && !(wi == 1 && victim == 1 && nt == vec![NOp::NotifyOne, NOp::NotifyWaiters]) {
+                    continue;
+                }
+                let main = vec![GOp::Spawn(1), GOp::Spawn(2), GOp::Spawn(3), GOp::Abort(victim), GOp::Join(1), GOp::Join(2), GOp::Join(3)];
+                out.push(Program { cfg: (), threads: vec![main, th(w), th(&[NOp::Await]), th(&nt)] });
+            }
+        }
+    }
+    // (c) three waiters: the notification of the cancelled one goes to one of the two others
+    for victim in [1usize, 3] {
+        for pre in [vec![NOp::NotifyOne], vec![NOp::NotifyOne, NOp::NotifyOne]] {
+            for post in [vec![], vec![NOp::NotifyOne], vec![NOp::NotifyWaiters]] {
+                // (17 k executions for the one kept in quick; the others 40 k – 200 k each)
+                if !thorough && !(victim == 3 && pre.len() == 1 && post == vec![NOp::NotifyWaiters]) {
+                    continue;
+                }
+                let mut main = vec![GOp::Spawn(1), GOp::Spawn(2), GOp::Spawn(3)];
+                main.extend(th(&pre));
+                main.push(GOp::Abort(victim));
+                main.extend(th(&post));
+                main.extend([GOp::Join(1), GOp::Join(2), GOp::Join(3)]);
+                out.push(Program { cfg: (), threads: vec![main, th(&[NOp::Await]), th(&[NOp::Await]), th(&[NOp::Await])] });
+            }
+        }
+    }
+    // (d) cancellation by `time::timeout` + `trigger_timeouts`.  No execution of these programs may
+    // fail (a failed execution leaks its timeout-table entry into the worker's later executions, see
+    // fam_task.rs): every wait is inside a timeout and main triggers all of them before it joins.
+    {
+        use NOp::*;
+        let wrap = |mid: &[GOp<NOp>], kids: Vec<Vec<NOp>>| {
+            let k = kids.len();
+            let mut main: Vec<GOp<NOp>> = (1..=k).map(GOp::Spawn).collect();
+            // (spawning has no scheduling point: without the yield every timeout would be born expired)
+            main.push(GOp::Op(Yield));
+            main.extend(mid.iter().cloned());
+            if !mid.is_empty() {
+                // (nor is there one between the wake-up sent by notify_one and the trigger)
+                main.push(GOp::Op(Yield));
+            }
+            main.push(GOp::Op(TriggerAll));
+            main.extend((1..=k).map(GOp::Join));
+            main.push(GOp::Op(ClearTriggers));
+            // where did the notifications end up?  (`enable` reports a stored permit without blocking)
+            main.extend([GOp::Op(New), GOp::Op(Enable), GOp::Op(DropFut)]);
+            let mut threads = vec![main];
+            threads.extend(kids.iter().map(|c| th(c)));
+            Program { cfg: (), threads }
+        };
+        let one = [GOp::Op(NotifyOne)];
+        let two = [GOp::Op(NotifyOne), GOp::Op(NotifyOne)];
+        let ow = [GOp::Op(NotifyOne), GOp::Op(NotifyWaiters)];
+        let trig_clear_one = [GOp::Op(TriggerAll), GOp::Op(ClearTriggers), GOp::Op(NotifyOne)];
+        let one_abort = [GOp::Op(NotifyOne), GOp::Abort(1)];
+        // one waiter
+        out.push(wrap(&one, vec![vec![TimeoutAwait]]));
+        out.push(wrap(&one, vec![vec![TimeoutAwait, TimeoutAwait]]));
+        out.push(wrap(&trig_clear_one, vec![vec![TimeoutAwait, TimeoutAwait]]));
+        // two waiters: the one chosen by notify_one may time out before it consumes the notification
+        out.push(wrap(&one, vec![vec![TimeoutAwait], vec![TimeoutAwait]]));
+        out.push(wrap(&one, vec![vec![TimeoutAwait], vec![TimeoutAwait, TimeoutAwait]]));
+        out.push(wrap(&one_abort, vec![vec![TimeoutAwait], vec![TimeoutAwait]]));
+        out.push(wrap(&[], vec![vec![TimeoutAwait], vec![TimeoutAwait], vec![NotifyOne]]));
+        if thorough {
+            out.push(wrap(&two, vec![vec![TimeoutAwait], vec![TimeoutAwait, TimeoutAwait]]));
+            out.push(wrap(&ow, vec![vec![TimeoutAwait], vec![TimeoutAwait, TimeoutAwait]]));
+            out.push(wrap(&trig_clear_one, vec![vec![TimeoutAwait], vec![TimeoutAwait, TimeoutAwait]]));
+            out.push(wrap(&[], vec![vec![TimeoutAwait], vec![TimeoutAwait], vec![NotifyOne, NotifyOne]]));
+            out.push(wrap(&[], vec![vec![TimeoutAwait], vec![TimeoutAwait], vec![NotifyOne, NotifyWaiters]]));
+            out.push(wrap(&[], vec![vec![TimeoutAwait], vec![TimeoutAwait, TimeoutAwait], vec![NotifyOne]]));
+            out.push(wrap(&one, vec![vec![TimeoutAwait], vec![TimeoutAwait], vec![TimeoutAwait]]));
+        }
+    }
+    if thorough {
+        // three waiters and a notifier task
+        for victim in [1usize, 2] {
+            for nt in [vec![NOp::NotifyOne, NOp::NotifyOne], vec![NOp::NotifyOne, NOp::NotifyWaiters]] {
+                let main = vec![GOp::Spawn(1), GOp::Spawn(2), GOp::Spawn(3), GOp::Spawn(4), GOp::Abort(victim), GOp::Join(1), GOp::Join(2), GOp::Join(3), GOp::Join(4)];
+                out.push(Program { cfg: (), threads: vec![main, th(&[NOp::Await]), th(&[NOp::Await]), th(&[NOp::Await]), th(&nt)] });
             }
         }
     }
